@@ -32,7 +32,8 @@ THEOREMS = [
     'Pyiga.Props.C08.sym_equiv', 'Pyiga.Props.C08.vec_skip_is_upper', 'Pyiga.Props.C08.block_transpose',
     'Pyiga.Props.C08.format_layout_index', 'Pyiga.Props.C08.format_layout_perm_bijective', 'Pyiga.Props.C08.format_layout_entry',
     'Pyiga.Props.C08.subset_restriction',
-    'Pyiga.Props.C08.update_equiv', 'Pyiga.Props.C08.update_needs_independence', 'Pyiga.Props.C08.update_params_slots',
+    'Pyiga.Props.C08.update_equiv', 'Pyiga.Props.C08.update_equiv_repaired', 'Pyiga.Props.C08.precompute_rule_before_after',
+    'Pyiga.Props.C08.update_needs_independence', 'Pyiga.Props.C08.update_params_slots',
 ]
 MODULES = ['Pyiga.Model.Index', 'Pyiga.Model.MLMatrix', 'Pyiga.Model.Layout', 'Pyiga.Model.Assembler', 'Pyiga.Proofs.Index',
            'Pyiga.Proofs.Layout', 'Pyiga.Proofs.Chunks', 'Pyiga.Proofs.AsmSym', 'Pyiga.Proofs.AsmFormat', 'Pyiga.Proofs.AsmSum',
@@ -45,6 +46,9 @@ THREAD_COUNTS = [1, 2, 3, 5, 8, 16]
 UPD_FORM = 'f*u*v*dx + c*inner(grad(u),grad(v))*dx'
 SYM_TOL = 8 * 4.0 * 8200 * 2.0 ** -53     # 8 x the C01 forward-error factor for <= 8000 nodes, relative to max|entry|
 STALE_FORM = 'f*f*f*f*u*v*dx + f*f*f*f*inner(grad(u),grad(v))*dx + f*u*v*dx'
+STALE_FORM2 = 'f*f*f*f*u*v*dx + f*f*f*f*inner(grad(u),grad(v))*dx'     # every use of f goes through the common subexpression
+PRECOMP_FORMS = [UPD_FORM.replace('c*', ''), STALE_FORM, STALE_FORM2, 'exp(f*f+1)*u*v*dx + exp(f*f+1)*f*inner(grad(u),grad(v))*dx',
+                 'f*u*v*dx', 'inner(grad(f),grad(f))*u*v*dx + inner(grad(f),grad(f))*inner(grad(u),grad(v))*dx', 'u*v*dx']
 
 
 def canon(A):
@@ -180,6 +184,7 @@ def worker_cfg(name, symform, seed, tier):
             # symmetric=True with non-square component blocks: the BSR path must refuse explicitly
             got = guard(lambda: canon(assemble.assemble_entries(asm, symmetric=True, format='bsr', layout='packed')))
             out['counts']['nonsquare+symmetric bsr probes'] = 1
+            out['reqs'].append(('drv_c08', 'vecbsr 1 %d %d %d %s %s' % (dim, nc1, nc0, nzs, bl), got, 'vec nonsquare symmetric bsr'))
             if not got.startswith('err'):
                 out['violations'].append(('nonsquare-symmetric-accepted', 'symmetric=True with %dx%d component blocks was accepted on the BSR path' % (nc1, nc0), desc, True))
         # subsets of blocks
@@ -248,7 +253,7 @@ def worker_bbox(seed, tier):
             for (bi, bj, V, U, coef) in terms:
                 F += np.asarray(coef) * o.W * V[:, i] * U[:, j]
             for (bi, bj, V, U, coef) in terms_abs:
-                Fa += np.asarray(coef) * o.W * V[:, i] * U[:, j]
+                Fa += np.abs(coef) * o.W * V[:, i] * U[:, j]
             tol = cfac * float(Fa.sum()) + 1e-300
             out['counts']['bbox entries'] = out['counts'].get('bbox entries', 0) + 1
             if abs(v_od - v_full) > 2 * tol:
@@ -267,7 +272,7 @@ def _field(kvs, rng, lo=0.5, hi=1.5):
     return bspline.BSplineFunc(fk, rng.uniform(lo, hi, size=tuple(kv.numdofs for kv in fk)))
 
 
-def worker_update(seed, tier, stale):
+def worker_update(seed, tier, stale, form2=False):
     """update(f=...) / update_params vs constructing afresh; reuse of one assembler object"""
     import pyiga
     from pyiga import assemble
@@ -275,7 +280,7 @@ def worker_update(seed, tier, stale):
     out = {'name': 'update-stale' if stale else 'update', 'status': 'ok', 'violations': [], 'reqs': [], 'counts': {}}
     case = c01.make_case('lapl_c', seed, tier)
     kvs = case['kvs0']; geo = case['geo']; rng = case['rng']
-    form = STALE_FORM if stale else UPD_FORM
+    form = (STALE_FORM2 if form2 else STALE_FORM) if stale else UPD_FORM
     desc = {'form': form, 'updatable': ['f'], 'seed': seed, 'kvs0': [(kv.kv.tolist(), kv.p) for kv in kvs], 'geometry': case['gkind']}
     out['desc'] = desc
     f0 = _field(kvs, rng)
@@ -283,12 +288,23 @@ def worker_update(seed, tier, stale):
     try:
         a = c01.quiet_call(lambda: assemble.Assembler(form, kvs, args=dict(args), updatable=['f']))
     except AssertionError as ex:
-        out['counts']['update: explicit error'] = 1     # explicit refusal is acceptable
+        # before 5ff56ef generate_update refused this form ('only global array vars can be updated'); since the fix it must build
+        out['violations'].append(('update-stale-precomputed', 'Assembler with an updatable field used only through a common subexpression does not build: AssertionError %s' % str(ex)[:200], desc, True))
         return out
+    def fresh_updatable(args_k):
+        # constructing afresh = a new Assembler of the same (updatable) class with the new inputs: bitwise
+        return c01.quiet_call(lambda: assemble.Assembler(form, kvs, args=dict(args_k), updatable=['f'])).assemble()
+
+    def close(A, B):
+        # a non-updatable assembler of the same form is a different kernel (precomputes more): equal to rounding accuracy
+        d = abs(A - B)
+        return (d.max() if d.nnz else 0.0) <= SYM_TOL * max(abs(B).max(), 1e-300)
+
     A0 = a.assemble()
-    fresh0 = c01.quiet_call(lambda: assemble.assemble(form, kvs, args=dict(args)))
-    if (A0 != fresh0).nnz:
-        out['violations'].append(('update-init', 'Assembler(...).assemble() differs from assemble(...) before any update', desc, True))
+    if (A0 != fresh_updatable(args)).nnz:
+        out['violations'].append(('update-init', 'two Assembler objects constructed with the same inputs assemble different matrices', desc, True))
+    if not close(A0, c01.quiet_call(lambda: assemble.assemble(form, kvs, args=dict(args)))):
+        out['violations'].append(('update-init', 'Assembler(..., updatable=[f]).assemble() differs from assemble(...) beyond rounding accuracy', desc, True))
     fs = [_field(kvs, rng) for _ in range(int(rng.integers(2, 5)))]
     for step, fk in enumerate(fs):
         if rng.integers(0, 2) == 0:
@@ -296,14 +312,15 @@ def worker_update(seed, tier, stale):
         else:
             A = a.assemble(f=fk)
         args_k = dict(args); args_k['f'] = fk
-        fresh = c01.quiet_call(lambda: assemble.assemble(form, kvs, args=args_k))
+        fresh = fresh_updatable(args_k)
+        plain = c01.quiet_call(lambda: assemble.assemble(form, kvs, args=args_k))
         out['counts']['update steps'] = out['counts'].get('update steps', 0) + 1
         d = abs(A - fresh)
-        if d.nnz and d.max() > 0:
-            rel = float(d.max() / max(abs(fresh).max(), 1e-300))
+        if (d.nnz and d.max() > 0) or not close(A, plain):
+            rel = float(max(d.max() if d.nnz else 0.0, abs(A - plain).max()) / max(abs(plain).max(), 1e-300))
             key = 'update-stale-precomputed' if stale else 'update'
-            out['violations'].append((key, 'Assembler.update(f=…) then assemble() differs from constructing afresh with the new field (max rel. difference %.3g at update step %d)%s'
-                                      % (rel, step, ': a common subexpression of the updatable field was precomputed and is not refreshed' if stale else ''),
+            out['violations'].append((key, 'Assembler.update(f=…) then assemble() differs from constructing afresh with the new field (max rel. difference %.3g at update step %d; '
+                                      'bitwise vs a new updatable Assembler, rounding accuracy vs assemble())' % (rel, step),
                                       dict(desc, f_coeffs=np.asarray(fk.coeffs).tolist()), True))
             break
         A2 = a.assemble()      # reuse without update
@@ -315,9 +332,9 @@ def worker_update(seed, tier, stale):
             a.asm.update_params(c=cv)
             A = a.assemble()
             args_k = dict(args); args_k['f'] = fs[-1]; args_k['c'] = cv
-            fresh = c01.quiet_call(lambda: assemble.assemble(form, kvs, args=args_k))
+            fresh = fresh_updatable(args_k)
             out['counts']['update_params steps'] = out['counts'].get('update_params steps', 0) + 1
-            if (A != fresh).nnz:
+            if (A != fresh).nnz or not close(A, c01.quiet_call(lambda: assemble.assemble(form, kvs, args=args_k))):
                 out['violations'].append(('update-params', 'update_params(c=%r) then assemble() differs from constructing afresh' % cv, desc, True))
         # malformed: non-updatable name / wrong shape
         r = guard(lambda: a.update(geo=geo))
@@ -359,8 +376,6 @@ def worker_threads(nthreads, seed, tier):
                 if is_vec:
                     nsq = asm.num_components()[0] != asm.num_components()[1]
                     for layout, fmt in (('packed', 'bsr'), ('blocked', 'csr'), ('packed', 'csr')):
-                        if nsq and fmt == 'bsr':
-                            continue      # known finding bsr-nonsquare-blocks (reported by the cfg worker)
                         def f():
                             A = assemble.assemble_entries(asm, symmetric=sym, format=fmt, layout=layout)
                             A.sort_indices()
@@ -388,6 +403,8 @@ def worker(name, seed, tier, **kw):
         return worker_update(seed, tier, False)
     if name == 'update-stale':
         return worker_update(seed, tier, True)
+    if name == 'update-stale2':
+        return worker_update(seed, tier, True, form2=True)
     if name.startswith('threads'):
         return worker_threads(int(name[7:]), seed, tier)
     return worker_cfg(name, dict(CFG_FORMS)[name], seed, tier)
@@ -445,9 +462,78 @@ def micro_stream(ctx):
     return len(req)
 
 
+def precomp_stream(ctx):
+    """VForm.dependency_analysis: which variables are precomputed (no C compiler needed): the real
+    finalize() against Layout.precompRule on the dumped dependency graph"""
+    from pyiga import vform, bspline, geometry
+    kvs = (bspline.make_knots(2, 0.0, 1.0, 2), bspline.make_knots(1, 0.0, 1.0, 2))
+    geo = geometry.unit_square()
+    f = bspline.BSplineFunc(kvs, np.ones((4, 3)))
+    req, exp = [], []
+    for expr in PRECOMP_FORMS:
+        for upd in ([], ['f'], ['geo'], ['f', 'geo']):
+            args = {'geo': geo, 'f': f}
+            try:
+                vf = vform.parse_vf(expr, kvs, args=args, updatable=upd)
+                vf.finalize()
+            except Exception as ex:
+                ctx.count('precomp: finalize raised ' + type(ex).__name__)
+                continue
+            lin = list(vf.linear_deps)
+            num = {id(v): k for k, v in enumerate(lin)}
+            deps = []
+            for v in lin:
+                e = getattr(v, 'expr', None)
+                deps.append(sorted(num[id(d)] for d in e.depends() if id(d) in num) if e else [])
+            isupd = [int(isinstance(v, vform.AsmVar) and isinstance(v.src, vform.InputField) and v.src.updatable) for v in lin]
+            basis = [int(v.scope == vform.Scope.BASISFUN) for v in lin]
+            got = plist(num[id(v)] for v in vf.precomp)
+            req.append('precomp 1 %d %s %s %s %s' % (len(lin), plist(range(len(lin))), plist(deps, plist), plist(isupd), plist(basis)))
+            exp.append(got)
+            # model-free: no precomputed variable may (transitively) depend on an updatable-sourced variable
+            def reach(k, seen):
+                for w in deps[k]:
+                    if w not in seen:
+                        seen.add(w); reach(w, seen)
+                return seen
+            for v in vf.precomp:
+                anc = reach(num[id(v)], set())
+                if any(isupd[w] for w in anc):
+                    ctx.violation('update-stale-precomputed', 'dependency_analysis precomputes `%s`, which depends on an updatable input field (form %s, updatable=%s)' % (v.name, expr, upd),
+                                  {'form': expr, 'updatable': upd, 'var': v.name}, True)
+            ctx.count('precomp requests')
+    got = ctx.model('drv_c08', req)
+    nd = sum(1 for e, g in zip(exp, got) if e != g)
+    for r, e, g in zip(req, exp, got):
+        if e != g:
+            ctx.violation('precomp-corr', 'model and dependency_analysis disagree on self.precomp: implementation %s, model %s' % (e, g), {'request': r, 'implementation': e, 'model': g}, False)
+            break
+    ctx.obligation('precomp stream: %d dependency graphs, model rule == VForm.dependency_analysis' % len(req), nd == 0 and len(req) > 0, '%d disagreements' % nd)
+    return len(req)
+
+
+def make_jobs(ctx):
+    jobs = []
+    for k, (name, symform) in enumerate(CFG_FORMS):
+        jobs.append({'name': name, 'seed': int(ctx.seed * 1000003 + 7919 + k), 'tier': ctx.tier})
+    jobs += [{'name': 'bbox', 'seed': int(ctx.seed * 1000003 + 31), 'tier': ctx.tier},
+             {'name': 'update', 'seed': int(ctx.seed * 1000003 + 32), 'tier': ctx.tier},
+             {'name': 'update-stale', 'seed': int(ctx.seed * 1000003 + 33), 'tier': ctx.tier},
+             {'name': 'update-stale2', 'seed': int(ctx.seed * 1000003 + 34), 'tier': ctx.tier}]
+    # compiled things first
+    order = {'bbox': 0, 'update': 0, 'update-stale': 0, 'update-stale2': 0}
+    jobs.sort(key=lambda j: order.get(j['name'], 0 if isinstance(c01.FORMS.get(j['name'], (0, 0, ''))[2], str) else 1))
+    tjobs = [{'name': 'threads%d' % n, 'seed': int(ctx.seed * 1000003 + 555), 'tier': ctx.tier} for n in THREAD_COUNTS]
+    return jobs, tjobs
+
+
 def run(ctx):
     ctx.build_repo()
     os.environ['XDG_CACHE_HOME'] = ctx.xdg_cache()
+    jobs, tjobs = make_jobs(ctx)
+    # one pool, started before the Lean build/audit: compiled-module publication is atomic since /repo bd865f5,
+    # so concurrent workers may meet a cold cache
+    join = c01.start_workers(ctx, jobs + tjobs, module='c08', nproc=15)
     ctx.require_lean(['Pyiga.Props.C08', 'drv_c08', 'drv_c01'])
     ctx.audit(['Pyiga.Props.C08'], THEOREMS, MODULES)
     if ctx.tier == 'thorough':
@@ -457,25 +543,14 @@ def run(ctx):
                     'real thread interleavings, OpenMP scheduling and the memory model are not modelled: the theorem is about the bookkeeping (disjoint write-sets); 6 thread counts are run in fresh processes']
     ctx.assumptions += ['entries asm.entry(i,j) / blocks asm.multi_blocks([(i,j)]) are the oracle of this property (their value is C01)',
                         'symmetric=True is exercised only for symmetric forms on square matrices; non-square component blocks + symmetric=True must raise on the BSR path, the generic path is outside the property (not run: out-of-bounds writes)',
-                        'update_equiv hypothesis: no precomputed variable depends on the updated field; the excluded point is run on the real code (known finding update-stale-precomputed)']
+                        'update_equiv: the independence hypothesis (no precomputed variable depends on the updated field) is established by the repaired dependency_analysis rule (/repo 5ff56ef; theorem update_equiv_repaired); the rule itself is tied by the `precomp` stream and the former failing forms are re-run (fixed finding update-stale-precomputed)']
     ctx.rule = ('9 assembler instances per seed (scalar 1D/2D/3D, two-space rectangular, 2x2 and 2x1 component forms; random degrees/knots/geometry as in C01) x symmetric x '
                 '{csr,csc,coo,bsr,mlb} x {blocked,packed}: exact comparison with the Lean model fed with asm.entry; random entry subsets (sizes 0..40, outside the pattern, iterator input), '
                 'row subsets, 6 random bounding boxes x 10 entries (on-demand assembler; Lean model with bbox offsets), update sequences of length 2-4 + update_params, reuse; '
                 'thread counts 1,2,3,5,8,16 in fresh subprocesses, bitwise equality of all results; chunk_tasks for n<=69,+6 large x k<=19,+2; non-trivial = every instance')
-    nmicro = micro_stream(ctx)
-    jobs = []
-    for k, (name, symform) in enumerate(CFG_FORMS):
-        jobs.append({'name': name, 'seed': int(ctx.seed * 1000003 + 7919 + k), 'tier': ctx.tier})
-    jobs += [{'name': 'bbox', 'seed': int(ctx.seed * 1000003 + 31), 'tier': ctx.tier},
-             {'name': 'update', 'seed': int(ctx.seed * 1000003 + 32), 'tier': ctx.tier},
-             {'name': 'update-stale', 'seed': int(ctx.seed * 1000003 + 33), 'tier': ctx.tier}]
-    # compiled things first
-    order = {'bbox': 0, 'update': 0, 'update-stale': 0}
-    jobs.sort(key=lambda j: order.get(j['name'], 0 if isinstance(c01.FORMS.get(j['name'], (0, 0, ''))[2], str) else 1))
-    results = c01.run_workers(ctx, jobs, module='c08')
-    # thread counts: after the cache is warm; all in parallel would distort nothing (bitwise criterion), but keep load moderate
-    tjobs = [{'name': 'threads%d' % n, 'seed': int(ctx.seed * 1000003 + 555), 'tier': ctx.tier} for n in THREAD_COUNTS]
-    tresults = c01.run_workers(ctx, tjobs, module='c08', nproc=3)
+    nmicro = micro_stream(ctx) + precomp_stream(ctx)
+    allres = join()
+    results, tresults = allres[:len(jobs)], allres[len(jobs):]
     for k, res in enumerate(tresults):
         # a cold module cache makes parallel workers race on the same generated module (that race is C20's subject): retry alone
         if res is None or res.get('status') != 'ok':
@@ -485,6 +560,9 @@ def run(ctx):
     nok = 0
     for job, res in zip(jobs + tjobs, results + tresults):
         name = job['name']
+        if res is not None and res.get('status') == 'timeout':
+            from .common import InfraError
+            raise InfraError('worker %s timed out (machine overloaded?)' % name)
         if res is None or res.get('status') != 'ok':
             ctx.obligation('worker %s' % name, False, str((res or {}).get('status')) + ' ' + str((res or {}).get('trace', ''))[-600:])
             ctx.violation('worker:' + name, 'harness worker %s failed: %s' % (name, (res or {}).get('status')), {'trace': (res or {}).get('trace', '')}, False)
